@@ -3051,6 +3051,9 @@ var callsOfInterest = map[string]bool{
 	"Reader.commitLoop": true, "Reader.commitLoopImmediate": true, "Reader.commitLoopInterval": true,
 	"Reader.commitOffsetsWithRetry": true, "Reader.activateReadLag": true, "Reader.readLag": true,
 	"Reader.getTopicPartitionOffset": true,
+	// the leader lookup of a partition reader (Model/Lifecycle.v LFDial / LFLookup / LFSeeCancel): where the
+	// lookup connection is closed
+	"Conn.Close": true, "Dialer.LookupPartition": true, "Dialer.LookupPartitions": true,
 	"reader.run": true, "reader.initialize": true, "reader.read": true, "reader.sendMessage": true, "reader.sendError": true,
 	// Conn (Model/ConnMux.v, Model/ConnOps.v)
 	"Conn.enter": true, "Conn.leave": true, "Conn.concurrency": true, "Conn.do": true, "Conn.doRequest": true,
